@@ -70,9 +70,9 @@ func escapePrograms() []string {
 			fmt.Fprintf(&b, "    v = [%slambda: (p, q, r), lambda: (r, q), [lambda: p + q for _ in range(2)]]\n", pad)
 			fmt.Fprintf(&b, "    w = (%s{1: lambda: (q, r)}, (lambda x = p: (x, q, r))(), \"%%s%%s\" %% (p, q), [p, q, r][::-1])\n", pad)
 			fmt.Fprintf(&b, "    def inner(): return (p, q, r, t)\n    z = [%sinner, p + q * r, {p: q}, (p, (q, (r,)))]\n", pad)
-			b.WriteString("    for x in (t, u[0], saved[0]):\n        truths = [bool(e) for e in x]\n        keys = {e: 1 for e in x}\n        text = str(x) + repr(list(x))\n        hashes = {x: 1}\n        srt = sorted(x)\n        eqs = [e == e for e in x]\n")
-			fmt.Fprintf(&b, "    if t != (%s,) or u[0] != (%s,) or saved[0] != (%s,): fail(\"a *args tuple changed after its call returned:\", t, u, saved)\n", a, a, a)
-			b.WriteString("    if u[1] != {\"name_one\": p, \"name_two\": q} or saved[1] != {\"k\": r}: fail(\"a **kwargs dict changed after its call returned:\", u, saved)\n")
+			b.WriteString("    for x in (t, u[0], saved[-2]):\n        truths = [bool(e) for e in x]\n        keys = {e: 1 for e in x}\n        text = str(x) + repr(list(x))\n        hashes = {x: 1}\n        srt = sorted(x)\n        eqs = [e == e for e in x]\n")
+			fmt.Fprintf(&b, "    if t != (%s,) or u[0] != (%s,) or saved[-2] != (%s,): fail(\"a *args tuple changed after its call returned:\", t, u, saved)\n", a, a, a)
+			b.WriteString("    if u[1] != {\"name_one\": p, \"name_two\": q} or saved[-1] != {\"k\": r}: fail(\"a **kwargs dict changed after its call returned:\", u, saved)\n")
 			b.WriteString("    return (t, u, v, w, z)\nres = caller(1, 2, 3)\nres2 = [caller(a, a + 1, a + 2)[0] for a in range(3)]\n")
 			out = append(out, b.String())
 		}
